@@ -14,5 +14,17 @@ REG_PENDING = {
     ref='§5-C13'),
 }
 
-REG = {}
+REG = {
+ 'C15': dict(
+    text='Lean 4 theorems over a model of merge_transcriptions_and_logits whose two slice expressions are REGENERATED from the '
+         'Python source on every run (translator/merge.py -> Generated/Merge.lean): length law, one logits row per character, '
+         'prefix/suffix preservation, zero-overlap and empty parts concatenated unchanged, for any number of parts of any '
+         'length; window splitting covers the line with max_line_width//4 overlap. Loop structure and overlap search tied '
+         'by exact correspondence with the real functions.',
+    note='Trusted: Lean kernel + 3 standard axioms; the ast translator (tiny expression subset; validated by the exact '
+         'correspondence of the generated model with the real merge on every run); float comparison of cer quotients of small '
+         'integers orders like exact rationals.',
+    technique='Lean 4 proof over a model regenerated from source + differential correspondence',
+    ref='§5-C15'),
+}
 NOT_YET = {}
